@@ -242,9 +242,26 @@ def readIntV7 : Reader Int := fun bs =>
 /-- `i32 as u32` -/
 def asU32 (v : Int) : Nat := (v % 4294967296).toNat
 
-/-- Everything before the client loop of a normal (non-`iex+`) info. `none` = `fail(..)`. -/
-def parseHeadNormal (ri : Reader Int) (ver : Version) (token : Int) (bs : List UInt8) :
-    Option (ServerInfo × Nat × List UInt8) := do
+/-- the fields of a normal (non-`iex+`) info in front of the clients, as read -/
+structure RawHead where
+  version : List UInt8
+  name : List UInt8
+  hostname : Option (List UInt8)
+  map : List UInt8
+  mapCrc : Option Nat
+  mapSize : Option Nat
+  gameType : List UInt8
+  flags : Int
+  progression : Option Int
+  skillLevel : Option Int
+  numPlayers : Int
+  maxPlayers : Int
+  numClients : Int
+  maxClients : Int
+  rawOffset : Int
+
+/-- Reads everything before the client loop of a normal info. `none` = `fail(..)`. -/
+def readHead (ri : Reader Int) (ver : Version) (bs : List UInt8) : Option (RawHead × List UInt8) := do
   let (version, bs) ← readStr bs
   let (name, bs) ← readStr bs
   let (hostname, bs) ←
@@ -272,21 +289,36 @@ def parseHeadNormal (ri : Reader Int) (ver : Version) (token : Int) (bs : List U
       pure (nc, mc, bs))
     else pure (numPlayers, maxPlayers, bs)
   let (rawOffset, bs) ← if ver.hasOffset then ri bs else pure (0, bs)
-  -- count sanity check
-  if numClients < 0 ∨ numClients > maxClients ∨ maxClients < 0
-      ∨ ver.exceedsMax maxClients
-      ∨ numPlayers < 0 ∨ numPlayers > numClients ∨ maxPlayers < 0 ∨ maxPlayers > maxClients then none
-  -- offset sanity check (`try_u32`)
-  else if rawOffset < 0 then none
+  pure ({ version := truncated CAP_VERSION version, name := truncated CAP_NAME name, hostname := hostname,
+          map := truncated CAP_MAP map, mapCrc := mapCrc, mapSize := mapSize,
+          gameType := truncated CAP_GAME_TYPE gameType, flags := flags, progression := progression,
+          skillLevel := skillLevel, numPlayers := numPlayers, maxPlayers := maxPlayers,
+          numClients := numClients, maxClients := maxClients, rawOffset := rawOffset }, bs)
+
+/-- the count sanity check and the offset sanity check (`try_u32`); on success the info (without
+clients) and the offset -/
+def checkHead (ver : Version) (token : Int) (h : RawHead) : Option (ServerInfo × Nat) :=
+  if h.numClients < 0 ∨ h.numClients > h.maxClients ∨ h.maxClients < 0
+      ∨ ver.exceedsMax h.maxClients
+      ∨ h.numPlayers < 0 ∨ h.numPlayers > h.numClients ∨ h.maxPlayers < 0 ∨ h.maxPlayers > h.maxClients then none
+  else if h.rawOffset < 0 then none
   else
-    pure ({ infoVersion := ver, token := token,
-            version := truncated CAP_VERSION version, name := truncated CAP_NAME name,
-            hostname := hostname, map := truncated CAP_MAP map, mapCrc := mapCrc, mapSize := mapSize,
-            gameType := truncated CAP_GAME_TYPE gameType, flags := flags,
-            progression := progression, skillLevel := skillLevel,
-            numPlayers := numPlayers, maxPlayers := maxPlayers,
-            numClients := numClients, maxClients := maxClients, clients := [] },
-          rawOffset.toNat, bs)
+    some ({ infoVersion := ver, token := token, version := h.version, name := h.name, hostname := h.hostname,
+            map := h.map, mapCrc := h.mapCrc, mapSize := h.mapSize, gameType := h.gameType, flags := h.flags,
+            progression := h.progression, skillLevel := h.skillLevel,
+            numPlayers := h.numPlayers, maxPlayers := h.maxPlayers,
+            numClients := h.numClients, maxClients := h.maxClients, clients := [] },
+          h.rawOffset.toNat)
+
+/-- Everything before the client loop of a normal (non-`iex+`) info. `none` = `fail(..)`. -/
+def parseHeadNormal (ri : Reader Int) (ver : Version) (token : Int) (bs : List UInt8) :
+    Option (ServerInfo × Nat × List UInt8) :=
+  match readHead ri ver bs with
+  | none => none
+  | some (h, bs) =>
+    match checkHead ver token h with
+    | none => none
+    | some (info, offset) => some (info, offset, bs)
 
 /-- The head of an `iex+` packet: token already read; returns the packet number. -/
 def parseHeadMore (ri : Reader Int) (token : Int) (bs : List UInt8) :
@@ -302,29 +334,32 @@ inductive ClientRead where
   | client (c : ClientInfo) (rest : List UInt8)
   deriving Repr, DecidableEq
 
+/-- sequencing of readers -/
+def Reader.andThen {α β : Type} (r : Reader α) (f : α → Reader β) : Reader β := fun bs =>
+  match r bs with
+  | none => none
+  | some (a, rest) => f a rest
+
+def Reader.ret {α : Type} (a : α) : Reader α := fun bs => some (a, bs)
+
+/-- the fields of one client after its name -/
+def readClientTail (ri : Reader Int) (ver : Version) (name : List UInt8) : Reader ClientInfo :=
+  (if ver.hasExtendedPlayerInfo then
+      readStr.andThen fun clan => ri.andThen fun country => Reader.ret (truncated CAP_CLIENT_CLAN clan, country)
+    else Reader.ret ([], -1)).andThen fun (clan, country) =>
+  ri.andThen fun score =>
+  (if ver.hasExtendedPlayerInfo then
+      if ver.hasFullClientFlags then ri
+      else ri.andThen fun isPlayer => Reader.ret (if isPlayer = 0 then (CLIENTINFO_FLAG_SPECTATOR : Int) else 0)
+    else Reader.ret 0).andThen fun flags =>
+  (if ver.hasExtraInfo then readStr.andThen fun _ => Reader.ret () else Reader.ret ()).andThen fun _ =>
+  Reader.ret { name := truncated CAP_CLIENT_NAME name, clan := clan, country := country, score := score, flags := flags }
+
 def readClient (ri : Reader Int) (ver : Version) (bs : List UInt8) : ClientRead :=
   match readStr bs with
   | none => .stop
   | some (name, bs) =>
-    let r : Option (ClientInfo × List UInt8) := do
-      let (clan, country, bs) ←
-        if ver.hasExtendedPlayerInfo then (do
-          let (clan, bs) ← readStr bs
-          let (country, bs) ← ri bs
-          pure (truncated CAP_CLIENT_CLAN clan, country, bs))
-        else pure ([], -1, bs)
-      let (score, bs) ← ri bs
-      let (flags, bs) ←
-        if ver.hasExtendedPlayerInfo then
-          if ver.hasFullClientFlags then ri bs
-          else (do
-            let (isPlayer, bs) ← ri bs
-            pure ((if isPlayer = 0 then (CLIENTINFO_FLAG_SPECTATOR : Int) else 0), bs))
-        else pure (0, bs)
-      let bs ← if ver.hasExtraInfo then (do let (_, bs) ← readStr bs; pure bs) else pure bs
-      pure ({ name := truncated CAP_CLIENT_NAME name, clan := clan, country := country, score := score,
-              flags := flags }, bs)
-    match r with
+    match readClientTail ri ver name bs with
     | none => .fail
     | some (c, bs) => .client c bs
 
